@@ -38,7 +38,7 @@ ASSUME /\ Roles \subseteq AllRoles /\ DescRoles \subseteq AllDescRoles /\ Header
        /\ CellAttrs \subseteq AllCellAttrs /\ Objects \subseteq AllObjects
 
 Features == [editable : BOOLEAN, role : Roles, descRole : DescRoles, datatable0 : BOOLEAN,
-             nested : BOOLEAN, rows : RowVals, cols : ColVals, short : BOOLEAN, latewide : BOOLEAN, span : BOOLEAN,
+             nested : BOOLEAN, rows : RowVals, cols : ColVals, short : BOOLEAN, latewide : BOOLEAN, span : BOOLEAN, emptyrow : BOOLEAN,
              header : Headers, cellAttr : CellAttrs, summary : BOOLEAN, object : Objects]
 
 (***************************************************************************)
@@ -56,7 +56,10 @@ LateWide(f) == f.latewide /\ ~f.short /\ f.cols > 1 /\ f.rows >= 2
 \* span: the first td cell of every row spans two columns (colspan="2"): the table is f.cols columns wide with one
 \* td cell less in every row
 Span(f) == f.span /\ ~f.short /\ ~f.latewide /\ f.cols > 2
+\* emptyrow: the last row has no cell at all (<tr></tr>: the cells above span it) - it is a row all the same
+EmptyRow(f) == f.emptyrow /\ ~f.short /\ ~f.latewide /\ ~f.span /\ ~f.nested /\ f.rows >= (IF f.header = "th" THEN 3 ELSE 2)   \* a row of td cells remains
 RowOf(f, r) ==
+    IF EmptyRow(f) /\ r = f.rows THEN << >> ELSE
     LET n == IF Span(f) THEN f.cols - 1
              ELSE IF LateWide(f) /\ r < f.rows THEN 1
              ELSE IF ShortApplies(f) /\ r = f.rows THEN f.cols - 1 ELSE f.cols
@@ -119,7 +122,8 @@ Documented(f) ==
     ELSE IF f.summary THEN "data"
     ELSE IF f.cols >= 5 THEN "data"
     ELSE IF f.rows >= 20 THEN "data"
-    ELSE IF (IF Span(f) THEN f.rows * (f.cols - 1)
+    ELSE IF (IF EmptyRow(f) THEN (f.rows - 1) * f.cols
+             ELSE IF Span(f) THEN f.rows * (f.cols - 1)
              ELSE IF LateWide(f) THEN f.rows - 1 + f.cols ELSE f.rows * f.cols - (IF ShortApplies(f) THEN 1 ELSE 0)) <= 10
          THEN "layout"                                                        \* at most 10 cells
     ELSE IF f.object # "none" THEN "layout"
@@ -134,15 +138,16 @@ vars == <<f, i, verdict, reason>>
 Row0 == CHOOSE r \in RowVals : TRUE
 Col0 == CHOOSE c \in ColVals : TRUE
 Init == /\ f \in [editable : BOOLEAN, role : Roles, descRole : DescRoles, datatable0 : BOOLEAN,
-                   nested : BOOLEAN, rows : {Row0}, cols : {Col0}, short : {FALSE}, latewide : {FALSE}, span : {FALSE},
+                   nested : BOOLEAN, rows : {Row0}, cols : {Col0}, short : {FALSE}, latewide : {FALSE}, span : {FALSE}, emptyrow : {FALSE},
                    header : {"none"}, cellAttr : {"none"}, summary : BOOLEAN, object : {"none"}]
         /\ i = 0 /\ verdict = "none" /\ reason = "none"
 
 Pick == /\ i = 0
-        /\ \E r \in RowVals, c \in ColVals, sh \in BOOLEAN, lw \in BOOLEAN, sp \in BOOLEAN, h \in Headers, a \in CellAttrs, o \in Objects :
+        /\ \E r \in RowVals, c \in ColVals, sh \in BOOLEAN, lw \in BOOLEAN, sp \in BOOLEAN, er \in BOOLEAN, h \in Headers, a \in CellAttrs, o \in Objects :
+              /\ (er => ~sh /\ ~lw /\ ~sp /\ r \in {2, 20} /\ c = 2)   \* a row without cells only matters next to the row thresholds
               /\ ~(sh /\ lw) /\ (lw => c > 1 /\ r >= 20)       \* the late wide row only matters for long tables
               /\ (sp => ~sh /\ ~lw /\ c = 4 /\ r = 2)           \* spanning cells only matter next to the column threshold
-              /\ f' = [f EXCEPT !.rows = r, !.cols = c, !.short = sh, !.latewide = lw, !.span = sp, !.header = h, !.cellAttr = a, !.object = o]
+              /\ f' = [f EXCEPT !.rows = r, !.cols = c, !.short = sh, !.latewide = lw, !.span = sp, !.emptyrow = er, !.header = h, !.cellAttr = a, !.object = o]
         /\ i' = 1
         /\ UNCHANGED <<verdict, reason>>
 
